@@ -5,7 +5,7 @@ import itertools
 
 from vmon import env, hooks
 from vmon.aromgen import (STANDARD, ANCHORED, EXOTIC, ALL_KINDS, standard_system, substituted_system,
-                          cage_system, CAGE_NAMES, pi_set, link_systems, single_ring_bonds)
+                          cage_system, CAGE_NAMES, pi_set, link_systems, single_ring_bonds, poly_aryl)
 from vmon.hooks import MON, call_guard
 from vmon.matching import exact_pm, judge_matching, is_bipartite
 from vmon.molgen import spell
@@ -43,7 +43,7 @@ def timeout(tier):
 def floors(tier):
     return {"M4.calls": 3000, "direct.calls": 20000, "standard.spellings": 1500, "standard.accepted": 300,
             "standard.rejected_ok": 100, "anchored.spellings": 800, "exotic.spellings": 500, "cage.spellings": 20,
-            "M4.nonbipartite": 100, "M4.bipartite": 1000, "direct.bipartite": 2000, "direct.matchable": 3000, "set:kinds": 30, "order_groups": 500, "linked.groups": 300}
+            "M4.nonbipartite": 100, "M4.bipartite": 1000, "direct.bipartite": 2000, "direct.matchable": 3000, "set:kinds": 30, "order_groups": 500, "linked.groups": 300, "polyaryl.groups": 500, "M4.calls_with_several_searches": 200}
 
 
 def ceilings(tier):
@@ -310,10 +310,15 @@ def run(ctx):
     hooks.attach_m1()
     hooks.attach_m1_encoder()
     hooks.attach_m4()
+    hooks.attach_m4b()
     sf.set_semantic_constraints({"?": 12})
     rng = ctx.rng
     quick = ctx.tier == "quick"
     A = Arom(ctx)
+    for i in range(80 if quick else 2500):
+        m, kind_of, ae = poly_aryl(rng)
+        A.group(m, kind_of, ae, "standard", rng.choice([4, 6, 8]), "G6-polyaryl")
+        ctx.count("polyaryl.groups")
     direct_matching(ctx, sf)
     for i in range(150 if quick else 4000):
         sizes = rng.choice([(5, 6, 6, 6, 7), (5, 6, 6, 6, 7), (3, 4, 5, 6, 7, 8), (5, 5, 6, 7), (6,), (6,), (4, 6, 8)])
